@@ -355,7 +355,7 @@ def tidal_potential(
         # n
         (-e - (9. /  8.) * e3) * cos4_p_sin4 + (5. * e + (13. / 3.) * e3) * cos2_sin2,
         # 2n
-        (-3. / 2.) * e2 * cos4_p_sin4 + (-2. + 11.) * cos2_sin2,
+        (-3. / 2.) * e2 * cos4_p_sin4 + (-2. + 11. * e2) * cos2_sin2,
         # 3n
         (-53. / 24.) * e3 * cos4_p_sin4 + (-7. * e + (581. / 24.) * e3) * cos2_sin2,
         # 4n
